@@ -104,10 +104,15 @@ def main(prop, tier):
                                 'events': rec.get('events'), 'rows': rec.get('rows'), 'assignment': rec.get('assignment'),
                                 'interleaving': rec.get('interleaving'), 'fault_fired': rec.get('fault_fired'),
                                 'digest': rec.get('digest')})
+            if rec.get('lost_without_failures'):
+                tally.add('runs_losing_rows_without_failed_iterations')
             for v in rec.get('violations') or []:
                 if v['property'] == prop:
                     viols.append((pl, rec, v))
         explore_wall = time.monotonic() - t0
+        if tally.c['runs_losing_rows_without_failed_iterations']:
+            # rows are lost even when nothing fails: a general loss (C13), not a failure leaking into other rows
+            viols = [x for x in viols if not x[2].get('conditional')]
         # ---- pooled distribution test (C13, thorough) --------------------------------
         dist_report = {}
         if prop == 'C13':
